@@ -121,6 +121,15 @@ def cases(tier):
                 s["edit"] = ed
                 s["id"] = dict(s["id"], edit=ed[0])
                 out.append(s)
+    # a valve whose setting is changed DURING the run by a time control: the law must hold with the setting in force
+    for vt, s0, s1 in (("TCV", 50.0, 500.0), ("TCV", 500.0, 0.0), ("PRV", 20.0, 45.0), ("PSV", 45.0, 20.0), ("FCV", 0.05, 0.001), ("FCV", 0.001, 0.05)):
+        for dh in (20.0, 60.0):
+            s = iso_spec(V("x", "J1", "J2", vt, s0, D=0.3, K=0.0), dh, "default")
+            s["opts"].update(dur=3 * 3600)
+            s["controls"] = [{"kind": "time", "t": 3600, "link": "x", "attr": "setting", "value": s1},
+                             {"kind": "time", "t": 2 * 3600, "link": "x", "attr": "setting", "value": s0}]
+            s["id"] = dict(s["id"], setting_control=[s0, s1])
+            out.append(s)
     keep = lambda d: d["k"] in LINKDEV
     if tier == "quick":
         out += ns.enumerate_cases(1, keep=keep)
@@ -211,7 +220,15 @@ def check_links(s, r, viol, counts):
                     bad("ppump-law", "power pump delivers %.6g W, set %.6g W: " % (pw, l["power"]) + where); return
             else:
                 vt = l["t"]
-                if abs(float(sett[n][i]) - l["setting"]) > 1e-12 and not s["controls"]:
+                # the setting in force at this step: the valve's own, or the last one commanded by a time control
+                cur = l["setting"]
+                timed = [c for c in s["controls"] if c.get("attr") == "setting" and c["link"] == n and c["kind"] == "time"]
+                for c in sorted(timed, key=lambda c: c["t"]):
+                    if c["t"] <= t:
+                        cur = c["value"]
+                only_timed = len(timed) == len(s["controls"])
+                l = dict(l, setting=cur)
+                if abs(float(sett[n][i]) - l["setting"]) > 1e-12 and (not s["controls"] or only_timed):
                     bad("valve-setting-report", "reported setting %.9g differs from the valve setting %.9g: " % (sett[n][i], l["setting"]) + where); return
                 if vt == "TCV" and si == 1 and l["status"] == "ACTIVE" and not s["controls"]:
                     # a throttle control valve has no internal rule that opens it: only a user command can
